@@ -40,13 +40,26 @@ def shim():
         pass
 
 
+def run_root():
+    """One scratch tree per top-level run; child processes (pool workers, replay confirmations)
+    inherit it through VERIF_RUN_ROOT and make sub-directories; the creator removes it at exit."""
+    global _scratch
+    r = os.environ.get("VERIF_RUN_ROOT")
+    if r and os.path.isdir(r):
+        return r
+    r = tempfile.mkdtemp(prefix="armi-verif.%d." % os.getpid(), dir=SCRATCH_ROOT)
+    os.environ["VERIF_RUN_ROOT"] = r
+    atexit.register(_cleanup, os.getpid(), r)
+    return r
+
+
 def scratch():
-    """Private scratch dir for this process (created lazily, removed at exit)."""
+    """Private scratch dir for this process."""
     global _scratch
     if _scratch is None or _scratch[0] != os.getpid():
-        d = tempfile.mkdtemp(prefix="armi-verif.%d." % os.getpid(), dir=SCRATCH_ROOT)
+        d = os.path.join(run_root(), "p%d" % os.getpid())
+        os.makedirs(d, exist_ok=True)
         _scratch = (os.getpid(), d)
-        atexit.register(_cleanup, os.getpid(), d)
     return _scratch[1]
 
 
@@ -58,15 +71,6 @@ def _cleanup(pid, d):
     except OSError:
         pass
     shutil.rmtree(d, ignore_errors=True)
-    # armi's fast path for this pid
-    try:
-        from armi import context
-
-        fp = context.getFastPath()
-        if fp and os.path.isdir(fp) and str(pid) in os.path.basename(fp):
-            shutil.rmtree(fp, ignore_errors=True)
-    except Exception:
-        pass
 
 
 def setup(need_armi=True):
@@ -91,7 +95,7 @@ def setup(need_armi=True):
             runLog.setVerbosity("error")
         except Exception:
             pass
-        logging.disable(logging.WARNING)
+        logging.disable(1000)  # armi "header" messages are level 100
         _configured = True
         real = os.path.realpath(armi.__file__)
         want = os.path.realpath(os.path.join(REPO, "armi"))
@@ -101,6 +105,19 @@ def setup(need_armi=True):
 
 
 def enter_scratch():
+    """chdir into the private scratch dir and point armi's fast path at it (nothing under /tmp)."""
     d = scratch()
     os.chdir(d)
+    try:
+        from armi import context
+
+        context._FAST_PATH = d
+        context._FAST_PATH_IS_TEMPORARY = False
+    except Exception:
+        pass
     return d
+
+
+def fresh_dir(name="w"):
+    """A new empty sub-directory of this process's scratch (for one execution)."""
+    return tempfile.mkdtemp(prefix=name + ".", dir=scratch())
